@@ -1096,6 +1096,8 @@ def get_attr(interp, obj, name, node):
     tp = _type_key(obj)
     if (tp, name) in METHODS:
         return SBoundLib(obj, name)
+    if isinstance(obj, (bool, int, float)) or obj is None:
+        raise SymRaise("AttributeError", f"{type(obj).__name__}.{name}", node, ("AttributeError", "Exception"))
     if isinstance(obj, SVec):
         if name == "T":
             return obj
@@ -1200,6 +1202,11 @@ def _list_index(interp, recv, args, kwargs, node, frame):
         raise SymRaise("ValueError", node=node, bases=("ValueError", "Exception"))
 
 
+@method("list", "count")
+def _list_count(interp, recv, args, kwargs, node, frame):
+    return recv.count(args[0])
+
+
 @method("list", "copy")
 def _list_copy(interp, recv, args, kwargs, node, frame):
     return list(recv)
@@ -1285,6 +1292,7 @@ def _dict_pop(interp, recv, args, kwargs, node, frame):
         raise SymRaise("KeyError", node=node, bases=("KeyError", "LookupError", "Exception"))
 
 
+METHODS[("num", "lower")] = lambda interp, recv, args, kwargs, node, frame: (_ for _ in ()).throw(SymRaise("AttributeError", "lower", node, ("AttributeError", "Exception")))
 for _m in ("lower", "upper", "strip", "split", "replace", "startswith", "endswith", "join", "format", "lstrip", "rstrip", "title"):
     def _mk(m):
         def f(interp, recv, args, kwargs, node, frame):
@@ -1301,7 +1309,12 @@ _LOWER = z3.Function("str_lower", z3.StringSort(), z3.StringSort())
 @method("sstr", "lower")
 def _sstr_lower(interp, recv, args, kwargs, node, frame):
     # uninterpreted; the contract side uses the same function, so only congruence is relied upon
-    interp.run.assumptions.add("[str.lower] str.lower on a symbolic string is an uninterpreted function of the string")
+    interp.run.assumptions.add("[str.lower] str.lower on a symbolic string is an uninterpreted function of the string, fixed on the literals none/monthly/bimonthly and length-preserving")
+    if not getattr(interp.run, "_lower_axioms", False):
+        interp.run._lower_axioms = True
+        for lit in ("none", "monthly", "bimonthly", ""):
+            interp.run._add(_LOWER(z3.StringVal(lit)) == z3.StringVal(lit))
+    interp.run._add(z3.Length(_LOWER(recv.expr)) == z3.Length(recv.expr))
     return SStr(_LOWER(recv.expr))
 
 
